@@ -66,7 +66,15 @@ CLAIMED.update({
         "technique": "static analysis: finite-domain path exploration over MIR (A1) of every DDL handler (flags x existence-probe outcome) against the SQL decision table",
         "level": ("Static, exhaustive over the decision domain: for every CREATE/DROP handler of SessionContext (found by the DdlStatement payload type) "
                   "and every combination of IF NOT EXISTS / OR REPLACE / IF EXISTS with object exists / missing, the handler's paths register, replace, "
-                  "leave alone or refuse exactly as the SQL model says (36 cells). Name resolution, view contents and the information schema are not decided."),
+                  "leave alone or refuse exactly as the SQL model says (36 cells); and once a CREATE OR REPLACE handler has deregistered the old object no fallible step "
+                  "precedes the registration of the new one. Name resolution, view contents and the information schema are not decided."),
+    },
+    "C39": {
+        "technique": "static analysis: ordered-trace path exploration over MIR (A2) of every function taking a table-partition write lock: no fallible exit after the first store; origin of the batch handed to expression evaluation",
+        "level": ("Static, over every path (loops unrolled twice) of the INSERT sink, DELETE and UPDATE of memory tables (found by the resolved "
+                  "RwLock::write callee): a failing statement returns its error before anything is stored into a locked partition (statement atomicity), "
+                  "and every assignment / WHERE expression is evaluated over an element of the locked partition, never over a batch rebuilt by the same "
+                  "statement (assignments see the pre-update row). Reported counts, NULL handling of the mask and written values are not decided."),
     },
     "C47": {
         "technique": "static analysis: exhaustive table extraction from MIR; symmetry + integer-range containment; one-sided match-arm detection",
@@ -367,7 +375,6 @@ NA = {
     'C27': 'correctness of prefix/glob/partition-value string computations and predicate evaluation over them; value-level',
     'C32': 'per-row value equality of ~600 kernels across encodings; no structural clause',
     'C33': 'per-row value equality between specialised and generic kernels; value-level',
-    'C39': 'history of table contents under DML; value-level',
     'C41': 'equality of query results after value substitution; placeholder type inference is data-type computation',
     'C44': 'value-level casting/reordering of columns over all schema pairs',
     'C45': 'behavioural equality through function-pointer tables; the only structural angle would be a name-matching heuristic (brittle proxy)',
